@@ -23,6 +23,11 @@
     compared with the harness' own composition of the maps (property oracle) and with the Lean
     model (`viaBasin`, `exportFile`);
 (D) lookup order of `__getitem__` (innate > temporary > internal > file basins).
+(E) referrer files whose map points outside the basin: nothing is served for missing events.
+Session 4: (A) maps with entries outside the basin; (B) histories with appended map chunks and
+indices of any magnitude; (C) re-export histories of the same dataset instances, definition
+records of every export (`exportStore`), referrers written chunk-wise, origins with more than 256
+events, `rtdc_copy` with feature selections (`copyFile`).
 """
 import json
 import os
@@ -36,33 +41,61 @@ from . import common, gen
 ID = "C07"
 LEAN_MODULES = ["DclabModel.Properties.C07"]
 RULE = ("A: random (basin array, map, index) triples, scalar and 2-D features, maps with repeats / "
-        "permutations / empty, indices: int, negative int, slice, boolean mask, index array, [:]; "
-        "non-trivial when the map is not the identity. B: store_basin histories of 3-13 calls over a "
-        "pool of 2-12 maps incl. explicit names and pre-existing map features; non-trivial when a "
-        "map is reused or the names are exhausted. C: chains of depth 1-4 mixing store_basin "
-        "referrers and exports (filtered/unfiltered x file/child/grandchild x feature subsets), "
+        "permutations / empty, 12 % with one or two entries outside the basin, indices: int, "
+        "negative int, slice, boolean mask, index array, [:]; "
+        "non-trivial when the map is not the identity. B: writer histories of 3-13 calls over a "
+        "pool of 2-12 maps: store_basin with automatic / explicit names, pre-existing map features, "
+        "and (60 %) rounds of store_feature('basinmapK', chunk) appending 1-4 entries to every map; "
+        "40 % of the histories repeat definition texts (identical definitions stored again); "
+        "half of the histories draw indices of any magnitude (2**3 .. 2**63, both sides of the "
+        "integer-size boundaries); non-trivial when a map is reused, chunks are appended or the "
+        "names are exhausted. C: origins of 4-24 events (6 %: 257-290), chains of depth 1-4 mixing "
+        "store_basin referrers (40 % of the mapped ones written chunk-wise: basin defined with the "
+        "first chunk, map and features appended) "
+        "referrers and exports (filtered/unfiltered x file/child/grandchild x feature subsets; "
+        "40 % of the exports are preceded by 1-2 exports of the same dataset instances with "
+        "kept / moved (same count) / new filters per hierarchy level), "
+        "rtdc_copy of the last referrer with features = all / scalar / none / a list; "
         "half of them spread over 3 directories with colliding names and partially relocated "
         "with decoys; "
         "non-trivial when at least one step maps or filters. distinct = distinct canonical cases.")
 TRUSTED_BASE = [
-    "modelled, not verified: numpy fancy/boolean indexing, h5py dataset reads, HDF5 chunking "
+    "modelled, not verified: numpy fancy/boolean indexing, h5py dataset reads / resize+assign, HDF5 "
+    "chunking and integer storage "
     "(the harness shrinks writer.CHUNK_SIZE_BYTES in a third of the scenarios so that maps and "
-    "features cross chunk boundaries), json round trip of basin definitions",
+    "features cross chunk boundaries; part B writes indices on both sides of 2**8/2**16/2**32), "
+    "json round trip of basin definitions",
     "hierarchy children are taken as views of their parent (property C04); the child->root map is "
-    "computed by the harness from the filters it applied"]
+    "computed by the harness from the filters it applied (also after re-filtering and "
+    "rejuvenating the same instances)",
+    "the order in which Export.hdf5 hands the definitions to store_basin is not visible in the "
+    "written file (records are keyed by hash): mapping names are compared with the model "
+    "(exportStore) up to a renaming; that each name holds the right map is compared exactly"]
 ASSUMPTIONS = [
     "all basinmap features of one file have the same length (numpy == broadcasts a length-1 map "
-    "against any other in store_basin's reuse test)",
-    "basin maps are valid for the basin (every index < number of basin events); for an invalid map "
-    "the integer route can succeed where the whole-array route raises IndexError",
+    "against any other in store_basin's reuse test); a streaming writer appends to every map "
+    "feature in every round",
+    "basin maps are valid for the basin (every index < number of basin events) in the value "
+    "theorems; for an invalid map the integer and event-wise routes can succeed where the "
+    "whole-array route raises IndexError (invalid_map_rejected / nd_route_rejects_iff / "
+    "int_route_rejects_iff say exactly where)",
     "coherent worlds for the export theorems: all basins of a file that deliver a feature deliver "
     "the same rows (true for every file written by dclab from one measurement); the priority "
     "order between incoherent basins is covered by C14"]
 NOT_PROVED = [
     "remote basin formats (no network; C14/C19 cover their logic), availability-check threads",
     "hierarchy child = filtered view of the parent (C04); Export.hdf5 feature writing (C02)",
-    "copier.basin_definition_copy is exercised by correspondence only (rtdc_copy of a referrer "
-    "shows the same basin features)"]
+    "copier.basin_definition_copy / rtdc_copy are modelled by what the copy shows (copyFile: "
+    "selected stored features, restricted / dropped internal definitions, file definitions "
+    "verbatim); the JSON rewriting and re-hashing of a restricted internal record and the "
+    "automatic inclusion of the basinmapK features in the selection are correspondence-only",
+    "the textual part of a definition record (name, description, paths/urls, identifiers) is an "
+    "opaque tag in the C07 model (C14 models paths and identifiers); the hash that keys the "
+    "records is trusted to be injective on the JSON lines (records_dedup is about keys = "
+    "(tag, mapping name))",
+    "re-export histories (same dataset instances, changed filters) are covered by the "
+    "correspondence; the model's export is a pure function of the view, so a cache inside the "
+    "Export object has no counterpart to prove about"]
 
 SCALARS = ["pos_x", "pos_y", "size_x", "size_y", "area_cvx", "temp"]
 KEEP = "frame"
@@ -150,6 +183,44 @@ def canon_vals(v, nd):
     return [int(x) for x in np.atleast_1d(a).reshape(-1)]
 
 
+def invalid_map_case(ctx, BasinProxyFeature, o, m, arr, bm, nd, idx, text, kind):
+    """a map with entries outside the basin: whatever is handed out must still be the origin's
+    data at existing mapped events (property oracle); where exactly the access raises is compared
+    with the model's three routes (`invalid_map_rejected`, `nd_route_rejects_iff`,
+    `int_route_rejects_iff`) — an implementation that raises earlier than the model is noted, not
+    flagged"""
+    n_o = len(o)
+    try:
+        touched = [int(t) for t in np.atleast_1d(np.arange(len(m))[idx])]
+    except IndexError:
+        touched = None
+    got = {}
+    for name in ("fresh", "asarray"):
+        p = BasinProxyFeature(feat_obj=arr, basinmap=bm)
+        try:
+            got[name] = canon_vals(p[idx] if name == "fresh" else np.asarray(p), nd)
+        except Exception as e:  # noqa
+            got[name] = common.err_class(e)
+    for name, pos in (("fresh", touched), ("asarray", list(range(len(m))))):
+        if not isinstance(got[name], list):
+            continue
+        if pos is None or any(m[t] >= n_o for t in pos):
+            bad = "data served for a mapped event that does not exist in the basin"
+        elif got[name] != [o[m[t]] for t in pos]:
+            bad = "served data differs from the origin at the mapped events"
+        else:
+            continue
+        ctx.violation("spec", f"BasinProxyFeature with an out-of-range map ({name}, index {text}, "
+                              f"{'nd' if nd else 'scalar'} feature): {bad}",
+                      {"part": "A", "o": o, "map": m, "nd": nd, "index": text, "impl": got})
+    ctx.case(("A", o, m, nd, text), nontrivial=True,
+             sample={"part": "A", "o": o, "map": m, "index": text, "impl": got["fresh"],
+                     "oracle": "invalid map"})
+    ctx.stat(f"A:invalid-map:{kind}:{'nd' if nd else 'scalar'}:"
+             f"{'served' if isinstance(got['fresh'], list) else 'rejected'}")
+    return ("proxy-inv", nd, kind in ("int", "neg"), got["fresh"])
+
+
 def part_a(ctx):
     common.import_dclab()
     from dclab.rtdc_dataset.feat_basin import BasinProxyFeature
@@ -164,8 +235,19 @@ def part_a(ctx):
             arr = np.array([[t, t + 1000, t + 2000] for t in o], dtype=np.int64).reshape(-1, 3)
         else:
             arr = np.array(o, dtype=np.int64)
+        invalid = len(m) > 0 and rng.random() < 0.12
+        if invalid:
+            # a map that points outside the basin at one or two positions
+            m = list(m)
+            for pos in rng.sample(range(len(m)), min(len(m), rng.randint(1, 2))):
+                m[pos] = n_o + rng.randint(0, 3)
         bm = np.array(m, dtype=np.uint64)
         idx, text, kind = rand_index(rng, len(m))
+        if invalid:
+            ex = invalid_map_case(ctx, BasinProxyFeature, o, m, arr, bm, nd, idx, text, kind)
+            lines.append(f"proxy {L(o)} ; {L(m)} ; {text}")
+            expect.append(ex)
+            continue
         whole = arr[bm] if len(m) else arr[:0]
         try:
             want = canon_vals(whole[idx], nd)
@@ -233,83 +315,172 @@ def part_a(ctx):
 
 
 # --------------------------------------------------------------------------------- part B
+MAGNITUDES = [3, 7, 8, 9, 15, 16, 17, 31, 32, 33, 63]
+
+
+def rand_origin_index(rng, wide, n):
+    """an origin event index: small (a few events) or of any magnitude an index can have (the
+    integer-size boundaries 2**8, 2**16, 2**32 on both sides)"""
+    if not wide:
+        return rng.randrange(n + 3)
+    return rng.randrange(2 ** rng.choice(MAGNITUDES))
+
+
+def basin_def(h5, key):
+    return json.loads(" ".join(x.decode() if isinstance(x, bytes) else x
+                               for x in h5["basins"][key][:]))
+
+
 def part_b(ctx):
+    """histories of writer calls on one file: `store_basin` (automatic / explicit map names, maps
+    from a pool so that reuse happens) and — streaming pipelines — rounds of
+    `store_feature("basinmapK", chunk)` that append the next piece of every map"""
     dclab = common.import_dclab()
     import h5py
     rng = ctx.rng
     lines, expect = [], []
-    for case in range(ctx.n(25, 300)):
+    for case in range(ctx.n(40, 400)):
         n = rng.randint(2, 7)
-        pool = [rand_map(rng, n + 3, "any")[:n] for _ in range(rng.choice([2, 3, 5, 12]))]
-        pool = [(p + [0] * n)[:n] for p in pool]
+        wide = rng.random() < 0.5
+        streaming = rng.random() < 0.6
+        pool = []
+        for _ in range(rng.choice([2, 3, 5, 12])):
+            pool.append([rand_origin_index(rng, wide, n) for _ in range(n)])
         path = ctx.workdir / f"b{case}.rtdc"
         pre = {}
         for k in rng.sample(range(10), rng.choice([0, 0, 1, 2])):
-            pre[k] = rng.choice(pool)
+            pre[k] = rng.randrange(len(pool))
+        pre_maps = {k: list(pool[i]) for k, i in pre.items()}
         reqs = []
         for _ in range(rng.randint(3, 13)):
             r = rng.random()
-            if r < 0.15:
+            if streaming and r < 0.3:
+                reqs.append(("P",))
+            elif r < 0.15 or (streaming and r < 0.4):
                 reqs.append(("S",))
-            elif r < 0.8:
-                reqs.append(("A", rng.choice(pool)))
+            elif r < 0.85:
+                reqs.append(("A", rng.randrange(len(pool))))
             else:
-                reqs.append(("N", rng.randrange(10), rng.choice(pool)))
-        names, keys = [], []
+                reqs.append(("N", rng.randrange(10), rng.randrange(len(pool))))
+        names, keys, txt = [], [], []
+        holds = dict(pre)        # map feature number -> pool entry it was written from
+        holds_ok = True
+        repeat_text = rng.random() < 0.4
+        wanted = []              # per request: pool entry (None for unmapped / append rounds)
         with dclab.RTDCWriter(path, mode="reset") as hw:
             hw.store_metadata({"experiment": {"run identifier": "rid"}})
-            for k, m in sorted(pre.items()):
-                hw.store_feature(f"basinmap{k}", np.array(m, dtype=np.uint64))
+            for k in sorted(pre):
+                hw.store_feature(f"basinmap{k}", np.array(pool[pre[k]], dtype=np.uint64))
             for i, rq in enumerate(reqs):
+                if rq[0] == "P" and not holds_ok:
+                    keys.append("skip")
+                    wanted.append(None)
+                    continue
+                if rq[0] == "P":
+                    # the next chunk of every map (entries with equal content stay equal)
+                    c = rng.randint(1, 4)
+                    chunk_of = {}
+                    for j, m in enumerate(pool):
+                        chunk_of.setdefault(tuple(m), [rand_origin_index(rng, wide, n)
+                                                       for _ in range(c)])
+                    chunks = [chunk_of[tuple(m)] for m in pool]
+                    for j in range(len(pool)):
+                        pool[j] = pool[j] + chunks[j]
+                    for k in sorted(holds):
+                        try:
+                            hw.store_feature(f"basinmap{k}",
+                                             np.array(chunks[holds[k]], dtype=np.uint64))
+                        except Exception as e:  # noqa
+                            ctx.note(f"C07: appending to basinmap{k} raised {e!r}"[:160])
+                    keys.append("app")
+                    wanted.append(None)
+                    txt.append("P " + ("|".join(f"{k}:{L(chunks[holds[k]])}"
+                                                for k in sorted(holds)) or "-"))
+                    continue
                 bm = None
+                # the text of the definition (name, location): a few histories repeat it, so
+                # that identical definitions (same text, same map name) are stored again
+                tag = i if not repeat_text else rng.randrange(3)
                 if rq[0] == "A":
-                    bm = np.array(rq[1], dtype=np.uint64)
+                    bm = np.array(pool[rq[1]], dtype=np.uint64)
+                    txt.append(f"A {L(pool[rq[1]])} @{tag}")
                 elif rq[0] == "N":
-                    bm = (f"basinmap{rq[1]}", np.array(rq[2], dtype=np.uint64))
+                    bm = (f"basinmap{rq[1]}", np.array(pool[rq[2]], dtype=np.uint64))
+                    txt.append(f"N {rq[1]} {L(pool[rq[2]])} @{tag}")
+                else:
+                    txt.append(f"S @{tag}")
+                wanted.append(None if rq[0] == "S" else rq[-1])
                 try:
-                    key = hw.store_basin(basin_name=f"b{i}", basin_type="file", basin_format="hdf5",
-                                         basin_locs=[f"/nowhere/{i}.rtdc"], basin_map=bm,
+                    key = hw.store_basin(basin_name=f"b{tag}", basin_type="file",
+                                         basin_format="hdf5",
+                                         basin_locs=[f"/nowhere/{tag}.rtdc"], basin_map=bm,
                                          verify=False)
-                    keys.append(key)
                 except ValueError:
                     keys.append(None)
+                    continue
+                keys.append(key)
+                try:
+                    mp = basin_def(hw.h5file, key)["mapping"]
+                    if mp != "same":
+                        holds.setdefault(int(mp[8:]), rq[-1])
+                except Exception as e:  # noqa
+                    # cannot see which map feature the writer chose while the file is open:
+                    # no more appended chunks in this history
+                    if holds_ok:
+                        ctx.note(f"C07: definition not readable through the open writer ({e!r}); "
+                                 "streamed chunks skipped"[:200])
+                    holds_ok = False
         oracle_bad = []
         with h5py.File(path, "r") as h5:
             maps = {int(k[8:]): [int(x) for x in h5["events"][k][:]] for k in h5["events"]
                     if k.startswith("basinmap")}
-            for rq, key in zip(reqs, keys):
+            n_rec = len(h5.get("basins", []))
+            for rq, key, want in zip(reqs, keys, wanted):
                 if key is None:
                     names.append("err")
                     continue
-                bd = json.loads(" ".join(x.decode() if isinstance(x, bytes) else x
-                                         for x in h5["basins"][key][:]))
-                mp = bd["mapping"]
+                if key == "app":
+                    names.append("app")
+                    continue
+                if key == "skip":
+                    continue
+                mp = basin_def(h5, key)["mapping"]
                 names.append("same" if mp == "same" else mp[8:])
-                if rq[0] != "S":
-                    wanted = rq[1] if rq[0] == "A" else rq[2]
-                    if mp == "same" or maps.get(int(mp[8:])) != wanted:
-                        oracle_bad.append((rq, mp))
-            for k, m in pre.items():
-                if maps.get(k) != m:
-                    oracle_bad.append(("pre-existing map changed", k))
-        reused = len(set(names) - {"err", "same"}) < len([x for x in names if x not in ("err", "same")])
-        ctx.case(("B", pre, reqs), nontrivial=reused or "err" in names,
-                 sample={"part": "B", "pre": pre, "requests": reqs, "names": names})
+                if want is not None:
+                    if mp == "same" or maps.get(int(mp[8:])) != pool[want]:
+                        oracle_bad.append((rq, mp, "file holds", maps.get(int(mp[8:]), "-")
+                                           if mp != "same" else "-", "written", pool[want]))
+            for k, i in pre.items():
+                if maps.get(k) != pool[i]:
+                    oracle_bad.append(("map feature written before the basins changed", k,
+                                       "file holds", maps.get(k), "written", pool[i]))
+        used = [x for x in names if x not in ("err", "same", "app")]
+        reused = len(set(used)) < len(used)
+        crossing = wide and any(max(m).bit_length() > 8 for m in pool)
+        ctx.case(("B", tuple(txt), tuple(sorted(pre_maps.items()))),
+                 nontrivial=reused or "err" in names or "app" in names,
+                 sample={"part": "B", "pre": pre_maps, "requests": txt, "names": names})
         ctx.stat("B:reuse" if reused else "B:fresh")
+        if "app" in names:
+            ctx.stat("B:streamed" + (":crossing-int-size" if crossing else ""))
+        elif crossing:
+            ctx.stat("B:wide-indices")
         if "err" in names:
             ctx.stat("B:exhausted-or-conflict")
         if oracle_bad:
-            ctx.violation("spec", "store_basin points a definition at a basinmap feature with "
-                                  f"different content: {oracle_bad[:2]}",
-                          {"part": "B", "pre": pre, "requests": reqs, "names": names, "maps": maps})
-        txt = []
-        for rq in reqs:
-            txt.append("S" if rq[0] == "S" else
-                       (f"A {L(rq[1])}" if rq[0] == "A" else f"N {rq[1]} {L(rq[2])}"))
-        pm = "|".join(f"{k}:{L(m)}" for k, m in sorted(pre.items())) or "-"
+            ctx.violation("spec", "a basin definition points at a basinmap feature whose content "
+                                  "is not the map that was written (store_basin / appended "
+                                  f"store_feature chunks): {oracle_bad[:2]}"[:400],
+                          {"part": "B", "pre": pre_maps, "requests": txt, "names": names,
+                           "maps": maps})
+        pm = "|".join(f"{k}:{L(m)}" for k, m in sorted(pre_maps.items())) or "-"
         lines.append(f"alloc {pm} ; " + " ; ".join(txt))
         fm = sorted(maps.items(), key=lambda kv: kv[0])
-        expect.append(("alloc", names, dict(fm)))
+        expect.append(("alloc", names, dict(fm), n_rec))
+        if repeat_text:
+            ctx.stat("B:repeated-definition-text" +
+                     (":deduplicated" if n_rec < len([k for k in keys if k not in
+                                                      (None, "app", "skip")]) else ""))
         os.unlink(path)
     return lines, expect
 
@@ -322,6 +493,7 @@ class FileInfo:
         self.rid = rid
         self.show = {}        # feature -> expected token list of ds[feature]
         self.innate = set()   # features stored in the file itself
+        self.via = {}         # feature -> expected tokens through the file basins alone
         self.ref = None       # the file this one was derived from (basin target)
         self.path0 = self.path
         self.n = 0
@@ -453,6 +625,8 @@ class Scenario:
         self.desc = []           # canonical description of the scenario (replay)
         self.small_chunks = small_chunks
         self.nontrivial = False
+        self.n_side = 0          # exports that do not continue the chain (checked on the spot)
+        self.side_problems = []
         # half of the scenarios spread the chain over several directories with colliding names
         self.spread = self.rng.random() < 0.5
         self.pdirs = [self.dir / f"p{i}" for i in range(3)]
@@ -481,10 +655,14 @@ class Scenario:
     def origin(self):
         rng = self.rng
         n = rng.randint(4, 24)
+        big = (not self.spread) and rng.random() < 0.06
+        if big:
+            # more events than an 8-bit index can address (token universe: 0..399)
+            n = rng.randint(257, 290)
         base = rng.randrange(0, 100)
         tokens = [base + i for i in range(n)]
         feats = [KEEP] + rng.sample(SCALARS, rng.randint(2, 4))
-        if rng.random() < 0.25:
+        if rng.random() < 0.25 and not big:
             feats.append("image")
         fi = self.new_info(f"rid{self.k}")
         gen.make_rtdc(fi.path, tokens, feats=feats, rid=fi.rid)
@@ -523,7 +701,7 @@ class Scenario:
             innate = {KEEP: [150 + j for j in range(len(idx))]}
         cand = [x for x in avail if x not in (KEEP, "image")]
         for f in rng.sample(cand, min(len(cand), rng.randint(0, 2))):
-            if rng.random() < 0.5 or not last:
+            if rng.random() < 0.5 or not last or len(idx) > 100:
                 innate[f] = [ref.show[f][i] for i in idx]            # coherent copy
             else:
                 innate[f] = [200 + j for j in range(len(idx))]       # innate must win
@@ -532,17 +710,37 @@ class Scenario:
             n_int = rng.randint(1, 6)
             imap = [rng.randrange(n_int) for _ in range(len(idx))]
             internal = ([300 + j for j in range(n_int)], imap)
+        # a streaming pipeline: the basin is defined with the first chunk of the map, the rest of
+        # the map is appended to the (explicitly named) map feature alongside the other features
+        cuts = None
+        if m is not None and len(m) > 1 and rng.random() < 0.4:
+            k = rng.randint(1, min(3, len(m) - 1))
+            cuts = [0] + sorted(rng.sample(range(1, len(m)), k)) + [len(m)]
+            self.ctx.stat("C:store:streamed" + (":big" if ref.n > 256 else ""))
         with dclab.RTDCWriter(fi.path, mode="reset") as hw:
             import copy
             mm = copy.deepcopy(gen.BASE_META)
             mm["experiment"]["run identifier"] = fi.rid
             hw.store_metadata(mm)
-            for f, toks in innate.items():
-                hw.store_feature(f, gen.rows(f, toks))
-            hw.store_basin(basin_name="verif", basin_type="file", basin_format="hdf5",
-                           basin_locs=[ref.path], basin_feats=explicit,
-                           basin_map=None if m is None else np.array(m, dtype=np.uint64),
-                           verify=True)
+            if cuts is None:
+                for f, toks in innate.items():
+                    hw.store_feature(f, gen.rows(f, toks))
+                hw.store_basin(basin_name="verif", basin_type="file", basin_format="hdf5",
+                               basin_locs=[ref.path], basin_feats=explicit,
+                               basin_map=None if m is None else np.array(m, dtype=np.uint64),
+                               verify=True)
+            else:
+                for a, b in zip(cuts, cuts[1:]):
+                    piece = np.array(m[a:b], dtype=np.uint64)
+                    if a == 0:
+                        hw.store_basin(basin_name="verif", basin_type="file",
+                                       basin_format="hdf5", basin_locs=[ref.path],
+                                       basin_feats=explicit, basin_map=("basinmap0", piece),
+                                       verify=True)
+                    else:
+                        hw.store_feature("basinmap0", piece)
+                    for f, toks in innate.items():
+                        hw.store_feature(f, gen.rows(f, toks[a:b]))
             if internal is not None:
                 hw.store_basin(basin_name="int", basin_type="internal", basin_format="h5dataset",
                                basin_locs=["basin_events"], basin_feats=[INTF],
@@ -558,23 +756,96 @@ class Scenario:
             self.emit(f"basin {fi.fid} I {FID[INTF]} {L(internal[1])} ; {FID[INTF]} {L(internal[0])}")
         for f in offered:
             fi.show[f] = [ref.show[f][i] for i in idx]
+        fi.via = {f: list(t) for f, t in fi.show.items()}
         for f, toks in innate.items():
             fi.show[f] = list(toks)
         fi.innate = set(innate)
         if internal is not None:
             fi.show[INTF] = [internal[0][i] for i in internal[1]]
             fi.innate.add(INTF)         # stored in the file (group basin_events)
-        self.desc.append(("store", ref.fid, kind, tuple(m or ()), tuple(explicit or ()),
+        self.desc.append(("store", ref.fid, kind + ("/streamed" if cuts else ""), tuple(m or ()),
+                          tuple(explicit or ()),
                           tuple(sorted((f, tuple(t)) for f, t in innate.items())),
                           internal is not None))
         return fi
 
     # ---- export ----------------------------------------------------------------------
+    def next_masks(self, prev, n, levels):
+        """boolean filters for the levels 0..levels of a hierarchy chain over a file of `n` events
+        (level j filters the events that passed level j-1; the last one is the filter of the
+        exported dataset itself).  With `prev` given: the filters of the next export of the *same*
+        dataset instances — single levels keep their filter, move it (same number of events:
+        shuffled or rolled window) or get a new one."""
+        rng = self.rng
+
+        def fresh(k):
+            m = [rng.random() < 0.7 for _ in range(k)]
+            if k and not any(m):
+                m[rng.randrange(k)] = True
+            return m
+
+        def moved(old):
+            m = list(old)
+            if rng.random() < 0.5:
+                rng.shuffle(m)
+            else:
+                r = rng.randint(1, max(1, len(m) - 1))
+                m = m[r:] + m[:r]
+            return m
+        if prev is None:
+            out, ln = [], n
+            for j in range(levels + 1):
+                out.append(fresh(ln))
+                ln = sum(out[-1])
+            return out
+        one = rng.random() < 0.5
+        pick = rng.randrange(levels + 1)
+        out, ln = [], n
+        for j in range(levels + 1):
+            old = prev[j]
+            if len(old) != ln:
+                new = fresh(ln)
+            else:
+                act = (("move" if j == pick else "keep") if one
+                       else rng.choice(["keep", "move", "move", "fresh"]))
+                new = list(old) if act == "keep" else moved(old) if act == "move" else fresh(ln)
+            out.append(new)
+            ln = sum(new)
+        return out
+
+    def check_side(self, path, ref, cur_idx, label):
+        """an export that does not continue the chain: every feature the source shows must be
+        shown by the export for exactly the exported events"""
+        dclab = common.import_dclab()
+        probs = []
+        try:
+            with dclab.new_dataset(path) as dn:
+                for f in sorted(ref.show):
+                    want = [ref.show[f][i] for i in cur_idx]
+                    try:
+                        if f not in dn:
+                            probs.append((f"{label}:{f}", "not offered by the export"))
+                            continue
+                        got = read_tokens(dn, f)
+                    except Exception as e:  # noqa
+                        probs.append((f"{label}:{f}", f"raised {e!r}"[:140]))
+                        continue
+                    if got != want:
+                        probs.append((f"{label}:{f}", f"[:] got {got[:14]} want {want[:14]}"))
+        except Exception as e:  # noqa
+            probs.append((f"{label}:<open>", repr(e)[:120]))
+        return probs
+
     def export(self, ref):
+        """`export.hdf5(basins=True)` of a view of `ref` (the file, a hierarchy child or a
+        grandchild; filtered or not).  In 40 % the same dataset instances are exported one or two
+        times before (other filters at some levels, rejuvenated); those exports are checked on
+        the spot, the last one continues the chain."""
         dclab = common.import_dclab()
         rng = self.rng
         levels = rng.choice([0, 0, 1, 1, 2])
         filtered = rng.random() < 0.6
+        rounds = 1 + (rng.choice([1, 1, 2]) if rng.random() < 0.4 else 0)
         fi = self.new_info(None)
         fi.ref = ref
         avail = sorted(ref.show)
@@ -584,36 +855,58 @@ class Scenario:
         if not feats:
             feats = [avail[0]]
         c2r = None
+        mask = None
         dss = []
         err = None
+        masks = None
         try:
-            ds = dclab.new_dataset(ref.path)
-            dss.append(ds)
-            cur_idx = list(range(ref.n))
-            for _ in range(levels):
-                keep = [rng.random() < 0.7 for _ in range(len(cur_idx))]
-                if not any(keep):
-                    keep[0] = True
-                ds.filter.manual[:] = np.array(keep, dtype=bool)
-                ds.apply_filter()
-                cur_idx = [i for i, kp in zip(cur_idx, keep) if kp]
-                ds = dclab.new_dataset(ds)
-                dss.append(ds)
-                c2r = cur_idx
-            mask = None
-            if filtered:
-                mask = [rng.random() < 0.7 for _ in range(len(cur_idx))]
-                if not any(mask):
-                    mask[-1] = True
-                ds.filter.manual[:] = np.array(mask, dtype=bool)
-                ds.apply_filter()
-                cur_idx = [i for i, kp in zip(cur_idx, mask) if kp]
-            elif rng.random() < 0.3:
-                # a filter that must be ignored by an unfiltered export
-                junk = [rng.random() < 0.5 for _ in range(len(cur_idx))]
-                ds.filter.manual[:] = np.array(junk, dtype=bool)
-                ds.apply_filter()
-            ds.export.hdf5(fi.path, features=feats, filtered=filtered, basins=True)
+            dss.append(dclab.new_dataset(ref.path))
+            for rnd in range(rounds):
+                masks = self.next_masks(masks, ref.n, levels)
+                junk = (not filtered) and rng.random() < 0.3
+                cur_idx = list(range(ref.n))
+                c2r = None
+                for j in range(levels):
+                    ds = dss[j]
+                    ds.filter.manual[:] = np.array(masks[j], dtype=bool)
+                    ds.apply_filter()
+                    cur_idx = [i for i, kp in zip(cur_idx, masks[j]) if kp]
+                    if len(dss) <= j + 1:
+                        dss.append(dclab.new_dataset(ds))
+                    else:
+                        dss[j + 1].rejuvenate()
+                    c2r = cur_idx
+                ds = dss[levels]
+                mask = None
+                if filtered:
+                    mask = masks[levels]
+                    ds.filter.manual[:] = np.array(mask, dtype=bool)
+                    ds.apply_filter()
+                    cur_idx = [i for i, kp in zip(cur_idx, mask) if kp]
+                elif junk:
+                    # a filter that must be ignored by an unfiltered export
+                    ds.filter.manual[:] = np.array(masks[levels], dtype=bool)
+                    ds.apply_filter()
+                elif rnd:
+                    ds.filter.manual[:] = True
+                    ds.apply_filter()
+                last = rnd == rounds - 1
+                path = fi.path if last else fi.path.with_name(f"side{rnd}_{fi.path.name}")
+                ds.export.hdf5(path, features=feats, filtered=filtered, basins=True)
+                if not last:
+                    self.n_side += 1
+                    self.ctx.stat(f"C:re-export-history:child{levels}")
+                    self.side_problems += self.check_side(
+                        path, ref, cur_idx, f"export#{rnd + 1}-of-{rounds}-from-file{ref.fid}")
+                    self.emit(f"export {500 + self.n_side} {ref.fid} {L(FID[f] for f in feats)} "
+                              f"{'x' if c2r is None else L(c2r)} "
+                              f"{'x' if not filtered else bits(mask)}",
+                              ("maps", sorted(self.file_maps(path))))
+                    self.emit(f"defs {500 + self.n_side}", ("defs", self.file_defs(path)))
+                    os.unlink(path)
+                    self.desc.append(("export", ref.fid, levels, filtered, tuple(c2r or ()),
+                                      tuple(mask or ()) if filtered else None, tuple(feats),
+                                      "side"))
         except Exception as e:  # noqa
             err = e
         finally:
@@ -633,6 +926,7 @@ class Scenario:
         fi.innate = set(feats)
         for f in avail:
             fi.show[f] = [ref.show[f][i] for i in cur_idx]
+        fi.via = {f: list(t) for f, t in fi.show.items()}
         try:
             with dclab.new_dataset(fi.path) as dn:
                 fi.rid = dn.get_measurement_identifier()
@@ -642,7 +936,24 @@ class Scenario:
         self.emit(f"export {fi.fid} {ref.fid} {L(FID[f] for f in feats)} "
                   f"{'x' if c2r is None else L(c2r)} {'x' if not filtered else bits(mask)}",
                   ("maps", maps))
+        self.emit(f"defs {fi.fid}", ("defs", self.file_defs(fi.path)))
         return fi, None
+
+    @staticmethod
+    def file_defs(path):
+        """definition records of a file: [(mapping name | 'same', content of the named feature)]"""
+        import h5py
+        out = []
+        with h5py.File(path, "r") as h5:
+            for key in h5.get("basins", []):
+                bd = basin_def(h5, key)
+                if bd["mapping"] == "same":
+                    out.append("same")
+                elif bd["mapping"] in h5["events"]:
+                    out.append(f"{bd['mapping'][8:]}={L(h5['events'][bd['mapping']][:])}")
+                else:
+                    out.append(f"{bd['mapping'][8:]}=missing")
+        return out
 
     @staticmethod
     def file_maps(path):
@@ -659,13 +970,15 @@ class Scenario:
         return out
 
     # ---- observation -----------------------------------------------------------------
-    def observe(self, fi, tag, path=None, tolerant=False):
+    def observe(self, fi, tag, path=None, tolerant=False, model_id=None):
         """returns list of (feat, problem) ; emits model `get` lines on first observation.
         `tolerant` (after a partial relocation): a feature that is not stored in the file itself
         may have become unavailable, but whatever is offered must be the origin's data"""
         dclab = common.import_dclab()
         probs = []
         path = path or fi.path
+        if tag == "first":
+            model_id = fi.fid
         try:
             ds = dclab.new_dataset(path)
         except Exception as e:  # noqa
@@ -686,8 +999,8 @@ class Scenario:
                         except Exception:
                             got = "unreadable"
                         probs.append((f, f"offered although no basin provides it: {got}"))
-                    if tag == "first":
-                        self.emit(f"get {fi.fid} {FID[f]}", "none")
+                    if model_id is not None:
+                        self.emit(f"get {model_id} {FID[f]}", "none")
                     continue
                 try:
                     if tolerant and f not in fi.innate and not present:
@@ -729,8 +1042,8 @@ class Scenario:
                                                         len(want), pats):
                                 probs.append((f, f"write-through after {how}: {bad}"))
                             touched.append(f)
-                if tag == "first":
-                    self.emit(f"get {fi.fid} {FID[f]}",
+                if model_id is not None:
+                    self.emit(f"get {model_id} {FID[f]}",
                               "rows " + L(got) if isinstance(got, list) and None not in got
                               else "impl-error")
             if touched and not probs and self.rng.random() < 0.35:
@@ -775,7 +1088,7 @@ def run_scenario(ctx, k, spec=None):
         cur = sc.origin()
         depth = rng.randint(2 if sc.spread else 1, 4)
         for step in range(depth):
-            if rng.random() < 0.35:
+            if rng.random() < (0.7 if cur.n > 256 else 0.35):
                 cur = sc.store(cur, last=step == depth - 1)
             else:
                 nxt, err = sc.export(cur)
@@ -785,6 +1098,7 @@ def run_scenario(ctx, k, spec=None):
                 cur = nxt
     finally:
         writer.CHUNK_SIZE_BYTES = old_chunk
+    problems += sc.side_problems
     for fi in sc.files[1:]:
         for f, p in sc.observe(fi, "first"):
             problems.append((f"file{fi.fid}:{f}", p))
@@ -792,31 +1106,14 @@ def run_scenario(ctx, k, spec=None):
         # copy of the last referrer (copier.basin_definition_copy)
         last = sc.files[-1]
         if rng.random() < 0.5:
-            try:
-                import h5py
-                from dclab.rtdc_dataset import rtdc_copy
-                cp = sc.dir / "copy.rtdc"
-                with h5py.File(last.path, "r") as src, h5py.File(cp, "w") as dst:
-                    rtdc_copy(src_h5file=src, dst_h5file=dst)
-                for f, p in sc.observe(last, "copy", path=cp):
-                    problems.append((f"copy-of-file{last.fid}:{f}", p))
-                os.unlink(cp)
-                ctx.stat("C:rtdc_copy")
-            except ValueError as e:
-                if "name already exists" in str(e):
-                    # files with >= 2 basin definitions cannot be copied before the fix of
-                    # copier.basin_definition_copy (finding of the C08 unit, fix-F26)
-                    ctx.stat("C:rtdc_copy-raised-name-already-exists")
-                else:
-                    ctx.note(f"C07: rtdc_copy raised {e!r}"[:160])
-            except Exception as e:  # noqa
-                ctx.note(f"C07: rtdc_copy raised {e!r}"[:160])
+            for f, p in copy_check(ctx, sc, last):
+                problems.append((f, p))
         if sc.spread:
             for f, p in relocate(ctx, sc):
                 problems.append((f, p))
             shutil.rmtree(sc.dir, ignore_errors=True)
             return sc, problems
-        if rng.random() < 0.5:
+        if rng.random() < 0.5 and sc.files[0].n <= 100:
             for f, p in replace_origin(ctx, sc):
                 problems.append((f, p))
             shutil.rmtree(sc.dir, ignore_errors=True)
@@ -832,6 +1129,67 @@ def run_scenario(ctx, k, spec=None):
         ctx.stat("C:moved")
     shutil.rmtree(sc.dir, ignore_errors=True)
     return sc, problems
+
+
+def copy_check(ctx, sc, last):
+    """`rtdc_copy` of the last referrer with a feature selection ("all" / "scalar" / "none" / a
+    list; `include_basins=True`, i.e. `copier.basin_definition_copy`).  A selected feature that
+    is stored in the file (or in an internal basin of it) is shown as before; any other feature
+    is shown through the file basins alone or is unavailable — never other data."""
+    import h5py
+    rng = ctx.rng
+    mode = rng.choice(["all", "all", "scalar", "none", "list", "list"])
+    names = sorted(FID)
+    if mode == "all":
+        chosen, arg = set(names), "all"
+    elif mode == "scalar":
+        chosen, arg = set(names) - {"image"}, "scalar"
+    elif mode == "none":
+        chosen, arg = set(), "none"
+    else:
+        chosen = set(rng.sample(names, rng.randint(1, len(names))))
+        arg = sorted(chosen)
+    probs = []
+    cp = sc.dir / "copy.rtdc"
+    try:
+        from dclab.rtdc_dataset import rtdc_copy
+        with h5py.File(last.path, "r") as src, h5py.File(cp, "w") as dst:
+            rtdc_copy(src_h5file=src, dst_h5file=dst, features=arg)
+    except ValueError as e:
+        if "name already exists" in str(e):
+            # files with >= 2 basin definitions cannot be copied before the fix of
+            # copier.basin_definition_copy (finding of the C08 unit, fix-F26)
+            ctx.stat("C:rtdc_copy-raised-name-already-exists")
+        else:
+            ctx.note(f"C07: rtdc_copy raised {e!r}"[:160])
+        return probs
+    except Exception as e:  # noqa
+        ctx.note(f"C07: rtdc_copy raised {e!r}"[:160])
+        return probs
+    ci = FileInfo(900, cp, last.rid)
+    ci.n = last.n
+    ci.innate = {f for f in last.innate if f in chosen}
+    for f in names:
+        if f in ci.innate:
+            ci.show[f] = list(last.show[f])
+        elif f in last.via:
+            ci.show[f] = list(last.via[f])
+    with h5py.File(cp, "r") as h5:
+        n_defs = len(h5.get("basins", []))
+        has_events = "events" in h5
+    if not has_events:
+        # a copy without any feature and without map features has no "events" group and cannot
+        # be opened as a dataset; nothing to observe
+        ctx.stat("C:rtdc_copy:no-events-group")
+        os.unlink(cp)
+        return probs
+    sc.emit(f"copy 900 {last.fid} {L(FID[f] for f in sorted(chosen))}", f"ok {n_defs}")
+    for f, p in sc.observe(ci, "copy", path=cp, model_id=900):
+        probs.append((f"copy({mode})-of-file{last.fid}:{f}", p))
+    os.unlink(cp)
+    ctx.stat("C:rtdc_copy")
+    ctx.stat(f"C:rtdc_copy:{mode}")
+    return probs
 
 
 def replace_origin(ctx, sc):
@@ -1029,7 +1387,7 @@ def part_c(ctx):
     lines, expect = [], []
     n_viol = 0
     import time
-    for k in range(ctx.n(150, 2000)):
+    for k in range(ctx.n(120, 2000)):
         if time.time() - ctx.t0 > (105 if not ctx.thorough else 780):
             ctx.note(f"C07: wall budget reached after {k} scenarios")
             break
@@ -1039,7 +1397,7 @@ def part_c(ctx):
         ctx.case(("C", tuple(sc.desc)), nontrivial=sc.nontrivial,
                  sample={"part": "C", "steps": [list(map(str, d)) for d in sc.desc][:5],
                          "problems": problems[:2]})
-        ctx.stat(f"C:depth{len(sc.desc) - 1}")
+        ctx.stat(f"C:depth{len([d for d in sc.desc[1:] if len(d) < 8 or d[0] != 'export'])}")
         for d in sc.desc[1:]:
             ctx.stat("C:step:" + d[0] + (f":child{d[2]}:{'filt' if d[3] else 'all'}"
                                          if d[0] == "export" else ":" + str(d[2])))
@@ -1127,9 +1485,81 @@ def part_d(ctx):
     return lines, expect
 
 
+# --------------------------------------------------------------------------------- part E
+def part_e(ctx):
+    """files whose basin map points outside the basin (`store_basin` does not compare the map
+    with the basin's length): reading through the dataset must never hand out data for an event
+    that does not exist; where it raises is compared with the proxy routes of the model"""
+    dclab = common.import_dclab()
+    import copy
+    rng = ctx.rng
+    lines, expect = [], []
+    feat = "pos_x"
+    for case in range(ctx.n(8, 60)):
+        d = ctx.workdir / f"e{case}"
+        d.mkdir()
+        n = rng.randint(3, 9)
+        o_tok = list(range(20, 20 + n))
+        gen.make_rtdc(d / "o.rtdc", o_tok, feats=[KEEP, feat], rid="ridE")
+        m = rand_map(rng, n, rng.choice(["subset", "repeat", "perm", "any"])) or [0]
+        for pos in rng.sample(range(len(m)), min(len(m), rng.randint(1, 2))):
+            m[pos] = n + rng.randint(0, 3)
+        try:
+            with dclab.RTDCWriter(d / "r.rtdc", mode="reset") as hw:
+                mm = copy.deepcopy(gen.BASE_META)
+                mm["experiment"]["run identifier"] = "ridE"
+                hw.store_metadata(mm)
+                hw.store_feature(KEEP, gen.rows(KEEP, [150 + j for j in range(len(m))]))
+                hw.store_basin(basin_name="f", basin_type="file", basin_format="hdf5",
+                               basin_locs=[d / "o.rtdc"], basin_feats=[feat],
+                               basin_map=np.array(m, dtype=np.uint64), verify=True)
+        except Exception as e:  # noqa
+            # a writer that refuses the map is the strictest possible behaviour
+            ctx.stat("E:refused-at-store")
+            ctx.case(("E", tuple(m), n, "refused"), nontrivial=True)
+            ctx.note(f"C07: store_basin refused an out-of-range map ({e!r})"[:160])
+            shutil.rmtree(d, ignore_errors=True)
+            continue
+        idx, text, kind = rand_index(rng, len(m))
+        if kind in ("mask", "arr"):
+            idx, text, kind = slice(None), "all", "all"
+        try:
+            touched = [int(t) for t in np.atleast_1d(np.arange(len(m))[idx])]
+        except IndexError:
+            touched = None
+        got = None
+        try:
+            with dclab.new_dataset(d / "r.rtdc") as ds:
+                if feat in ds:
+                    got = gen.tokens_of(feat, np.atleast_1d(ds[feat][idx]), UNIV)
+                else:
+                    got = "err:unavailable"
+        except Exception as e:  # noqa
+            got = common.err_class(e)
+        ctx.case(("E", tuple(m), n, text), nontrivial=True,
+                 sample={"part": "E", "n": n, "map": m, "index": text, "impl": got})
+        ctx.stat(f"E:{kind}:{'served' if isinstance(got, list) else 'rejected'}")
+        if isinstance(got, list):
+            if touched is None or any(m[t] >= n for t in touched):
+                bad = "data served for a mapped event that does not exist in the basin"
+            elif got != [o_tok[m[t]] for t in touched]:
+                bad = f"served {got} differs from the origin at the mapped events"
+            else:
+                bad = None
+            if bad:
+                ctx.violation("spec", f"referrer with an out-of-range basin map, ds[{feat!r}]"
+                                      f"[{text}]: {bad}",
+                              {"part": "E", "n": n, "map": m, "index": text, "got": got})
+        lines.append(f"proxy {L(o_tok)} ; {L(m)} ; {text}")
+        expect.append(("proxy-inv", False, kind in ("int", "neg"), got))
+        shutil.rmtree(d, ignore_errors=True)
+    return lines, expect
+
+
 # ---------------------------------------------------------------------------------
 def compare(ctx, lines, expect, out):
     diffs = []
+    stricter = []
     for ln, ex, got in zip(lines, expect, out):
         if ex is None:
             if got.split()[0] not in ("ok",):
@@ -1138,13 +1568,14 @@ def compare(ctx, lines, expect, out):
         if isinstance(ex, tuple) and ex[0] == "alloc":
             names, maps = ex[1], ex[2]
             head, _, tail = got.partition(" maps=")
+            tail, _, nrec = tail.partition(" nrec=")
             gm = {}
             if tail and tail != "-":
                 for e in tail.split("|"):
                     k, _, m = e.partition(":")
                     gm[int(k)] = [] if m == "-" else [int(x) for x in m.split(",")]
-            if head.split() != names or gm != maps:
-                diffs.append((ln[:160], f"{names} {maps}", got[:200]))
+            if head.split() != names or gm != maps or nrec != str(ex[3]):
+                diffs.append((ln[:160], f"{names} {maps} nrec={ex[3]}", got[:200]))
         elif isinstance(ex, tuple) and ex[0] == "maps":
             if not got.startswith("ok"):
                 diffs.append((ln[:160], ex[1], got[:160]))
@@ -1152,8 +1583,43 @@ def compare(ctx, lines, expect, out):
                 gm = sorted(got[3:].strip().split(";")) if got[3:].strip() else []
                 if gm != ex[1]:
                     diffs.append((ln[:160], ex[1], got[:200]))
+        elif isinstance(ex, tuple) and ex[0] == "defs":
+            # definition records: mapping name -> content; the order of writing is not visible
+            # in the file (records are keyed by hash), so names are compared up to a renaming
+            real = sorted(ex[1])
+            model = sorted(got[3:].strip().split(";")) if got.startswith("ok") and got[3:].strip() \
+                else []
+            if not got.startswith("ok"):
+                diffs.append((ln[:160], real, got[:160]))
+            elif real == model:
+                ctx.stat("C:defs:names-equal")
+            else:
+                def canon(entries):
+                    names = sorted(e.split("=")[0] for e in entries if e != "same")
+                    cont = sorted(e.split("=", 1)[1] if e != "same" else "same" for e in entries)
+                    dist = sorted(set(names))
+                    return cont, len(dist), dist == [str(i) for i in range(len(dist))], \
+                        len(set(e for e in entries if e != "same")) == len(dist)
+                if canon(real) == canon(model):
+                    ctx.stat("C:defs:names-permuted")
+                else:
+                    diffs.append((ln[:160], real, got[:200]))
+        elif isinstance(ex, tuple) and ex[0] == "proxy-inv":
+            fields = dict(x.split("=", 1) for x in got.split() if "=" in x)
+            mv = fields.get("int") if ex[2] else fields.get("nd" if ex[1] else "cache")
+            iv = L(ex[3]) if isinstance(ex[3], list) else "none"
+            if mv != iv:
+                if iv == "none":
+                    # stricter than the model (e.g. the map is validated earlier): not a defect
+                    ctx.stat("A:invalid-map:impl-raises-earlier-than-model")
+                    stricter.append(ln[:120])
+                else:
+                    diffs.append((ln[:160], iv, got[:200]))
         elif got.strip() != str(ex).strip():
             diffs.append((ln[:160], ex, got[:200]))
+    if stricter:
+        ctx.note(f"C07: {len(stricter)} accesses through an out-of-range map raise where the model's "
+                 f"route would still serve the valid entries (first: {stricter[0]})")
     return diffs
 
 
@@ -1162,9 +1628,10 @@ def run(ctx):
     lb, eb = part_b(ctx)
     lc, ec = part_c(ctx)
     ld, ed = part_d(ctx)
+    le, ee = part_e(ctx)
     if not ctx.lean_ok:
         return
-    lines, expect = la + lb + lc + ld, ea + eb + ec + ed
+    lines, expect = la + lb + lc + ld + le, ea + eb + ec + ed + ee
     out = ctx.lean("C07", lines)
     diffs = compare(ctx, lines, expect, out)
     ctx.stat("model_lines", len(lines))
